@@ -156,6 +156,11 @@ func refEvents(c *Ctx, f *ssa.Function) []refEvent {
 				return
 			}
 		}
+		// loading a footer's segments takes the mmap references that its DecRef releases
+		if sf != nil && sf.Pkg == c.Moss && c.fname(sf) == "(*Footer).loadSegments" && recv != nil {
+			evs = append(evs, refEvent{instr: i, tok: recv, kind: "acq", errCall: call})
+			return
+		}
 		// acquisitions through the result
 		if sf != nil && sf.Pkg == c.Moss {
 			switch c.fname(sf) {
@@ -198,7 +203,16 @@ func firstResult(call *ssa.Call) ssa.Value {
 // it, returns it, releases it, captures it nor passes it on to anything that does.
 var borrowMemo = map[*ssa.Function]map[int]int{}
 
+// pureExternals: library functions that only read through their arguments.
+var pureExternals = map[string]bool{
+	"encoding/json.Marshal": true, "fmt.Sprintf": true, "fmt.Errorf": true, "fmt.Printf": true, "fmt.Sprint": true,
+	"encoding/json.MarshalIndent": true,
+}
+
 func paramBorrowed(callee *ssa.Function, idx int) bool {
+	if callee != nil && callee.Pkg != nil && callee.Pkg.Pkg.Path() != mossPath {
+		return pureExternals[callee.Pkg.Pkg.Path()+"."+callee.Name()]
+	}
 	if callee == nil || callee.Blocks == nil || callee.Pkg == nil || callee.Pkg.Pkg.Path() != mossPath || idx >= len(callee.Params) {
 		return false
 	}
@@ -480,6 +494,9 @@ func balanceWalk(c *Ctx, f *ssa.Function, g []refEvent) (string, string) {
 				if e.errCall != nil {
 					s.ec = e.errCall
 					s.et = newTracker()
+					if e.errCall.Call.Signature().Results().Len() == 1 {
+						s.et.vals[e.errCall] = true // the call's only result is the error
+					}
 				}
 				s.t.step(ins, nil, 0)
 				continue
